@@ -307,8 +307,15 @@ pub fn check(args: &Args) -> i32 {
         exit = 1;
     }
     // the systematic part: every nesting of two operators, both groupings
-    let grid_n = crate::c14grid::count();
-    let gouts = parallel_map(grid_n, args.workers, move |i| run_explicit(&crate::c14grid::world(seed, i), false));
+    let grid_base = crate::c14grid::count();
+    let grid_rounds: u64 = if thorough { 12 } else { 1 };
+    let grid_n = grid_base * grid_rounds;
+    let grid_world = move |i: u64| {
+        let round = i / grid_base.max(1);
+        let s = if round == 0 { seed } else { crate::rng::mix(seed, "c14grid.round", round) };
+        crate::c14grid::world(s, i % grid_base.max(1))
+    };
+    let gouts = parallel_map(grid_n, args.workers, move |i| run_explicit(&grid_world(i), false));
     let mut grid_reported: Vec<String> = vec![];
     let mut grid_violating = 0u64;
     let mut grid_executed = 0u64;
@@ -320,7 +327,7 @@ pub fn check(args: &Args) -> i32 {
         }
         if let Outcome::Violated(v) = &g.outcome {
             grid_violating += 1;
-            let mut rv = crate::c14grid::world(seed, i as u64);
+            let mut rv = grid_world(i as u64);
             let src = rv["sources"][0][1].as_str().unwrap_or("").to_string();
             let printed = reprint("index", &src, false).map(|r| r.text).unwrap_or_default();
             if let Some(k) = known.iter().find(|k| known_by_text(k, &v.class, &src, &printed)) {
